@@ -21,6 +21,62 @@ fn name(k: Kind) -> &'static str {
 
 type MSet = BTreeSet<Kind>;
 
+/// Error of the probe conversions below: the `Unexpected` payload when that is what failed.
+enum ConvErr {
+	Unexpected(usize, json_syntax::Unexpected),
+	Other,
+}
+
+impl From<json_syntax::code_map::Mapped<json_syntax::Unexpected>> for ConvErr {
+	fn from(e: json_syntax::code_map::Mapped<json_syntax::Unexpected>) -> Self {
+		ConvErr::Unexpected(e.offset, e.value)
+	}
+}
+
+impl From<json_syntax::code_map::Mapped<std::convert::Infallible>> for ConvErr {
+	fn from(_: json_syntax::code_map::Mapped<std::convert::Infallible>) -> Self {
+		ConvErr::Other
+	}
+}
+
+impl<T> From<json_syntax::code_map::Mapped<json_syntax::TryIntoNumberError<T>>> for ConvErr {
+	fn from(e: json_syntax::code_map::Mapped<json_syntax::TryIntoNumberError<T>>) -> Self {
+		match e.value {
+			json_syntax::TryIntoNumberError::Unexpected(u) => ConvErr::Unexpected(e.offset, u),
+			_ => ConvErr::Other,
+		}
+	}
+}
+
+/// A leaf type whose conversion is the one of `()` with the error type the container impls need.
+struct UnitProbe;
+
+impl json_syntax::TryFromJson for UnitProbe {
+	type Error = ConvErr;
+	fn try_from_json_at(v: &Value, cm: &json_syntax::CodeMap, offset: usize) -> Result<Self, ConvErr> {
+		<() as json_syntax::TryFromJson>::try_from_json_at(v, cm, offset).map(|_| UnitProbe).map_err(ConvErr::from)
+	}
+}
+
+fn text_of(v: &Value) -> String {
+	v.to_string()
+}
+
+/// Every `TryFromJson` conversion of the crate applied to `v`: `Some((expected, found, message))` when it fails with `Unexpected`.
+fn conversions(v: &Value, cm: &json_syntax::CodeMap) -> Vec<(&'static str, Option<(usize, KindSet, Kind, String)>)> {
+	use json_syntax::TryFromJson;
+	fn brief<T, E: Into<ConvErr>>(r: Result<T, E>) -> Option<(usize, KindSet, Kind, String)> {
+		match r.map_err(Into::into) {
+			Err(ConvErr::Unexpected(at, u)) => Some((at, u.expected, u.found, u.to_string())),
+			_ => None,
+		}
+	}
+	macro_rules! conv {
+		($($t:ty),*) => { vec![$((stringify!($t), brief(<$t>::try_from_json_at(v, cm, 0)))),*] };
+	}
+	conv!((), bool, u8, u16, u32, u64, usize, i8, i16, i32, i64, isize, f32, f64, String, Box<bool>, Box<Box<String>>, Option<bool>, Option<Box<u8>>, Vec<UnitProbe>, Vec<Vec<UnitProbe>>, std::collections::BTreeMap<String, UnitProbe>, Box<std::collections::BTreeMap<String, UnitProbe>>, Option<Vec<UnitProbe>>, UnitProbe)
+}
+
 fn model(mask: usize) -> MSet {
 	(0..6).filter(|i| mask >> i & 1 == 1).map(|i| KINDS[i]).collect()
 }
@@ -477,6 +533,28 @@ pub fn run(cfg: &Config) -> i32 {
 			let f32_ok = Value::try_from(0.25f32).map(|v| (v.kind(), v.to_string()));
 			if !matches!(&f64_ok, Ok((Kind::Number, t)) if t == "1.5") || !matches!(&f32_ok, Ok((Kind::Number, t)) if t == "0.25") || Value::try_from(f64::NAN).is_ok() || Value::try_from(f32::INFINITY).is_ok() {
 				fail(&mut rep, "value-kind", format!("TryFrom<f64/f32>: {:?} / {:?} (non-finite values must be refused)", f64_ok.map_err(|_| ()), f32_ok.map_err(|_| ())));
+			}
+		}
+		// the kind reported for a value by a failed conversion (`Unexpected::found`) is the kind of
+		// that value, the expected kinds are a non-empty set that does not contain it, and the
+		// message renders exactly those
+		for text in ["null", "true", "false", "7", "-1.5e3", "\"x\"", "[null]", "[]", "[[null],[]]", "{}", "{\"a\":null}", "[1]", "{\"a\":[true]}"] {
+			use json_syntax::Parse;
+			let (v, cm) = Value::parse_str(text).expect("sample document");
+			let v = &v;
+			for (what, r) in conversions(v, &cm) {
+				rep.evaluations += 1;
+				if let Some((at, expected, found, text)) = r {
+					let want_text = format!("expected {}, found {}", expected.as_disjunction(), found);
+					// the value the error points at (its offset in the code map is its position in the traversal)
+					let culprit = match v.traverse().nth(at) {
+						Some((_, json_syntax::FragmentRef::Value(x))) => Some(x.kind()),
+						_ => None,
+					};
+					if culprit != Some(found) || contents(expected).contains(&found) || expected.is_empty() || text != want_text {
+						fail(&mut rep, "conversion-error-kind", format!("{} of {} fails at fragment {} (a value of kind {:?}) with found = {:?}, expected = {:?}, message {:?}", what, text_of(v), at, culprit, found, contents(expected), text));
+					}
+				}
 			}
 		}
 		for (v, k) in &samples {
